@@ -7,21 +7,47 @@
    -1e4 (see c06_border_value_observation).  A rough peak is (x, y, value, sample,
    channel).  `spec_peak m thr y x v` is the property's own wording, written without
    reference to the detector: cell (y,x) of m holds v, v > thr, and v is strictly
-   greater than every in-bounds cell at Chebyshev distance 1 (`adjacent`). *)
+   greater than every in-bounds cell at Chebyshev distance 1 (`adjacent`).
+   `thr` is the threshold AS THE CODE COMPARES IT: the caller's Python float rounded to the
+   map's dtype (see the end of Peaks.v); the harness passes that exact rational.
+   `in_value_domain v` = -1e4 < v <= 2^38: the values on which the exact model stands for the
+   float code (below: kornia's border constant; above: float32 absorbs the centre term
+   v - 1e4 and the code drops the maximum).  The proofs use only the lower half. *)
 From Coq Require Import List ZArith QArith Qabs Bool Arith Sorted.
 Import ListNotations.
 From SV Require Import C06.Peaks C06.Lemmas C06.PatchP.
 Local Open Scope Q_scope.
 
 (* (a) exactly the strict local maxima above threshold, with the correct sample index,
-       channel index and value *)
+       channel index and value — for every value v of the value domain (round 4: the
+       hypothesis is on the reported value only, no longer on every cell of the batch, and
+       names the upper end of the domain as well) *)
 Theorem c06_sound_complete :
+  forall cms thr C H W, dims cms = (C, H, W) -> rect C H W cms ->
+  forall x y v s c, in_value_domain v ->
+  (In (x, y, v, s, c) (local_peaks_rough cms thr) <->
+   exists m, map_at cms s c = Some m /\ spec_peak m thr y x v).
+Proof. exact rough_iff_dom. Qed.
+Print Assumptions c06_sound_complete.
+
+(* completeness alone *)
+Theorem c06_complete :
+  forall cms thr C H W x y v s c m, dims cms = (C, H, W) -> rect C H W cms ->
+  map_at cms s c = Some m -> in_value_domain v -> spec_peak m thr y x v ->
+  In (x, y, v, s, c) (local_peaks_rough cms thr).
+Proof. exact rough_complete_dom. Qed.
+Print Assumptions c06_complete.
+
+(* the round-1 form (every cell of the batch above -1e4, no upper end): a statement about
+   the exact-rational MODEL only — it does not carry over to float32 maps holding values
+   above 2^38 (use c06_sound_complete) *)
+Theorem c06_sound_complete_model_def :
   forall cms thr C H W, dims cms = (C, H, W) -> rect C H W cms -> above_border cms ->
   forall x y v s c,
   In (x, y, v, s, c) (local_peaks_rough cms thr) <->
   exists m, map_at cms s c = Some m /\ spec_peak m thr y x v.
 Proof. exact rough_iff. Qed.
-Print Assumptions c06_sound_complete.
+Print Assumptions c06_sound_complete_model_def.
 
 (* soundness alone needs no assumption on shapes or values *)
 Theorem c06_sound :
@@ -38,8 +64,8 @@ Proof. exact is_peak_sound. Qed.
 Print Assumptions c06_cell_test_sound.
 
 Theorem c06_cell_test_complete : forall m thr y x v,
-  BORDER < v -> thr < v -> strict_local_max m y x v -> is_peak m thr y x v = true.
-Proof. exact is_peak_complete. Qed.
+  in_value_domain v -> thr < v -> strict_local_max m y x v -> is_peak m thr y x v = true.
+Proof. exact is_peak_complete_dom. Qed.
 Print Assumptions c06_cell_test_complete.
 
 (* (b) each once: no repeated entry, and no cell (sample, y, x, channel) reported twice *)
@@ -69,7 +95,29 @@ Theorem c06_locality :
 Proof. exact rough_locality. Qed.
 Print Assumptions c06_locality.
 
-(* (d) integral refinement keeps number, order, values, sample and channel indices ... *)
+(* (c) at the REFINED level, in the form the harness tests on the code (oracle_refine): the
+       refined peaks of map (s,c) in the batch = the refined peaks of the map alone,
+       re-indexed, for every patch size p (and for the radius model) *)
+Theorem c06_refined_locality_any_patch :
+  forall cms thr p C H W s c m, dims cms = (C, H, W) -> rect C H W cms ->
+  map_at cms s c = Some m ->
+  filter (on_map_r s c) (local_peaks_p cms thr p) =
+  map (reindex_r s c) (local_peaks_p [[m]] thr p).
+Proof. exact refined_locality_p. Qed.
+Print Assumptions c06_refined_locality_any_patch.
+
+Theorem c06_refined_locality :
+  forall cms thr r C H W s c m, dims cms = (C, H, W) -> rect C H W cms ->
+  map_at cms s c = Some m ->
+  filter (on_map_r s c) (local_peaks cms thr r) =
+  map (reindex_r s c) (local_peaks [[m]] thr r).
+Proof. exact refined_locality. Qed.
+Print Assumptions c06_refined_locality.
+
+(* (d) integral refinement keeps number, order, values, sample and channel indices
+       (`_def` in spirit: local_peaks is a `map` over the rough peaks that copies (v,s,c), so
+       this holds by construction of the model; the content — that the CODE keeps them — is
+       carried by the correspondence run, which compares length, values and indices exactly) *)
 Theorem c06_refine_keeps_indices : forall cms thr r,
   map strip_refined (local_peaks cms thr r) = map strip_rough (local_peaks_rough cms thr).
 Proof. exact refine_keeps_indices. Qed.
@@ -157,7 +205,11 @@ Theorem c06_refine_uses_own_map_any_patch :
 Proof. exact refine_pointwise_p. Qed.
 Print Assumptions c06_refine_uses_own_map_any_patch.
 
-(* (e) half-patch bound for every p >= 1 outside the selector of F9 (window of radius p/2
+(* (e) half-patch bound, on EACH AXIS (a decision: a Euclidean reading fails even on
+       non-negative maps, e.g. 0.01 at (3,3) and 100 at (5,5) with p = 5 moves by 2.83 > 2.5).
+       Stated for p >= 1; the tie covers p in 2..7 — for p = 1 the code raises inside kornia
+       (degenerate box), so the p = 1 instance is a statement about the model only.
+       For every p >= 1 outside the selector of F9 (window of radius p/2
        around the peak without a negative cell, positive peak value): the refined point
        exists and lies within (p-1)/2 < p/2 of its grid cell on each axis *)
 Theorem c06_refine_bound_any_patch_partial : forall m x y p, (1 <= p)%nat ->
@@ -209,6 +261,17 @@ Example ex_c06_hypotheses :
   let cms := [[ [[0;0;0];[0;1;0];[0;0;2]] ; [[3;0;0];[0;0;0];[0;0;0]] ]] in
   dims cms = (2, 3, 3)%nat /\ rect 2 3 3 cms /\ above_border cms.
 Proof. exact ex_hypotheses. Qed.
+
+(* the value domain holds the example's peak values and its own upper end, not -1e4 *)
+Example ex_c06_value_domain : in_value_domain 3 /\ in_value_domain VMAX /\ ~ in_value_domain BORDER.
+Proof. exact ex_value_domain. Qed.
+
+(* refined locality on two channels: channel 1's refined peak, alone and in the batch *)
+Example ex_c06_refined_locality :
+  let cms := [[ [[0;0;0];[0;1;0];[0;0;2]] ; [[3;1;0];[0;0;0];[0;0;0]] ]] in
+  filter (on_map_r 0 1) (local_peaks_p cms (1#2) 3) = [(Some (1#4, 0#4), 3, 0%nat, 1%nat)] /\
+  local_peaks_p [[ [[3;1;0];[0;0;0];[0;0;0]] ]] (1#2) 3 = [(Some (1#4, 0#4), 3, 0%nat, 0%nat)].
+Proof. vm_compute. auto. Qed.
 
 Example ex_c06_outside_F9 : selector_F9 [[0;1;0];[1;4;2];[0;1;0]] 1 1 1 = false.
 Proof. vm_compute. reflexivity. Qed.
